@@ -16,6 +16,52 @@ Proof. induction l as [|a l IH]; [reflexivity|]. cbn [flat_map forallb]. now rew
 Lemma forallb_ext' {A} (f g : A -> bool) l : (forall a, f a = g a) -> forallb f l = forallb g l.
 Proof. intros E. induction l as [|a l IH]; [reflexivity|]. cbn [forallb]. now rewrite E, IH. Qed.
 
+(* ---- one axis of the shifted slices: Python slice normalisation, broadcasting, mask shape ---- *)
+
+Definition dim_okb (off n : Z) : bool := (Z.abs off <=? n) || (2 * n - 1 <=? Z.abs off).
+
+Ltac slice_cases E1 E2 :=
+  unfold pyslice, pynorm in E1, E2;
+  repeat match type of E1 with context [if ?c then _ else _] => destruct c eqn:? end;
+  repeat match type of E2 with context [if ?c then _ else _] => destruct c eqn:? end;
+  injection E1 as <- <-; injection E2 as <- <-.
+
+(* the offset fits into the image: both slices have n - |off| cells and correspond cell by cell *)
+Lemma dim_normal off n s a o b : 0 <= n -> Z.abs off <= n ->
+  pyslice (Z.max 0 (- off)) (Z.min n (n - off)) n = (s, a) ->
+  pyslice (Z.max 0 off) (Z.min n (n + off)) n = (o, b) ->
+  s = Z.max 0 (- off) /\ a = n - Z.abs off /\ o = Z.max 0 off /\ b = a.
+Proof. intros Hn Ha E1 E2. slice_cases E1 E2; lia. Qed.
+
+(* far outside: a bound is negative and wraps, but one slice is empty and the other has at most
+   one cell, so broadcasting gives an empty min_mask and nothing is assigned *)
+Lemma dim_far off n s a o b : 0 <= n -> n < Z.abs off -> 2 * n - 1 <= Z.abs off ->
+  pyslice (Z.max 0 (- off)) (Z.min n (n - off)) n = (s, a) ->
+  pyslice (Z.max 0 off) (Z.min n (n + off)) n = (o, b) ->
+  (a = 0 \/ a = 1) /\ (b = 0 \/ b = 1) /\ (a = 0 \/ b = 0).
+Proof. intros Hn Ha Hb E1 E2. slice_cases E1 E2; lia. Qed.
+
+(* in between: one slice is empty, the wrapped one has two or more cells: ValueError *)
+Lemma dim_bad off n s a o b : 0 <= n -> n < Z.abs off -> Z.abs off < 2 * n - 1 ->
+  pyslice (Z.max 0 (- off)) (Z.min n (n - off)) n = (s, a) ->
+  pyslice (Z.max 0 off) (Z.min n (n + off)) n = (o, b) ->
+  bcompat a b = false.
+Proof. intros Hn Ha Hb E1 E2. unfold bcompat. slice_cases E1 E2; lia. Qed.
+
+Lemma dim_ok_compat off n s a o b : 0 <= n -> dim_okb off n = true ->
+  pyslice (Z.max 0 (- off)) (Z.min n (n - off)) n = (s, a) ->
+  pyslice (Z.max 0 off) (Z.min n (n + off)) n = (o, b) ->
+  bcompat a b = true /\ maskdim_ok a (bdim a b) = true /\ 0 <= a /\ 0 <= bdim a b /\
+  (n < Z.abs off -> bdim a b = 0).
+Proof.
+  intros Hn Hk E1 E2. unfold dim_okb in Hk.
+  destruct (Z_le_gt_dec (Z.abs off) n) as [N|N].
+  - destruct (dim_normal off n s a o b Hn N E1 E2) as (_ & Ea & _ & ->).
+    unfold bcompat, maskdim_ok, bdim. destruct (a =? 1) eqn:A; repeat split; lia.
+  - destruct (dim_far off n s a o b Hn ltac:(lia) ltac:(lia) E1 E2) as (A & B & C).
+    unfold bcompat, maskdim_ok, bdim. destruct (a =? 1) eqn:A1; repeat split; lia.
+Qed.
+
 Section Reg.
   Variables (image : list (list Z)) (mask : option (list (list bool))) (st : list (list bool)).
   Local Notation h := (length image).
@@ -25,10 +71,6 @@ Section Reg.
   Local Notation H := (Z.of_nat h).
   Local Notation W := (Z.of_nat w).
   Variables h0 h1 : Z.
-  Hypothesis Hh0 : 0 <= h0 <= H.
-  Hypothesis Hh1 : 0 <= h1 <= W.
-  Hypothesis Sh0 : h0 <= Z.of_nat sh.
-  Hypothesis Sh1 : h1 <= Z.of_nat sw.
 
   Definition bmf (y x : Z) : bool :=
     if (h0 <=? y) && (y <? h0 + H) && (h1 <=? x) && (x <? h1 + W)
@@ -38,70 +80,105 @@ Section Reg.
   Definition cond (i j y x : Z) : bool :=
     implb (negb ((i =? h0) && (j =? h1)) && get2 false st i j) (nb_ok image mask y x (i - h0) (j - h1)).
 
+  (* the cell (i, j) of the structure does not make NumPy raise *)
+  Definition cell_ok (ij : Z * Z) : bool :=
+    implb (negb ((fst ij =? h0) && (snd ij =? h1)) && get2 false st (fst ij) (snd ij))
+          (dim_okb (fst ij - h0) H && dim_okb (snd ij - h1) W).
+
   Lemma rm_step_spec (f0 : Z -> Z -> bool) i j :
     0 <= i < Z.of_nat sh -> 0 <= j < Z.of_nat sw ->
     rm_step image big_mask st h w h0 h1 (tab h w f0) (i, j)
-    = tab h w (fun y x => f0 y x && cond i j y x).
+    = if cell_ok (i, j) then Some (tab h w (fun y x => f0 y x && cond i j y x)) else None.
   Proof.
-    intros Hi Hj. unfold rm_step, cond.
+    intros Hi Hj. unfold rm_step, cond, cell_ok. cbn [fst snd].
     destruct ((i =? h0) && (j =? h1)) eqn:C.
-    { apply tab_ext. intros y x _ _. cbn [negb andb implb]. now rewrite andb_true_r. }
+    { cbn [negb andb implb]. f_equal. apply tab_ext. intros y x _ _. now rewrite andb_true_r. }
     destruct (get2 false st i j) eqn:S.
-    2:{ apply tab_ext. intros y x _ _. cbn [negb andb implb]. now rewrite andb_true_r. }
-    cbn [negb andb implb]. apply tab_ext. intros y x Hy Hx.
+    2:{ cbn [negb andb implb]. f_equal. apply tab_ext. intros y x _ _. now rewrite andb_true_r. }
+    cbn [negb andb implb].
+    destruct (pyslice (Z.max 0 (- (i - h0))) (Z.min H (H - (i - h0))) H) as [si sa] eqn:E1.
+    destruct (pyslice (Z.max 0 (- (j - h1))) (Z.min W (W - (j - h1))) W) as [sj sb] eqn:E2.
+    destruct (pyslice (Z.max 0 (i - h0)) (Z.min H (H + (i - h0))) H) as [oi oa] eqn:E3.
+    destruct (pyslice (Z.max 0 (j - h1)) (Z.min W (W + (j - h1))) W) as [oj ob] eqn:E4.
+    destruct (dim_okb (i - h0) H) eqn:KI.
+    2:{ unfold dim_okb in KI. rewrite (dim_bad (i - h0) H si sa oi oa) by (auto; lia). reflexivity. }
+    destruct (dim_ok_compat (i - h0) H si sa oi oa ltac:(lia) KI E1 E3) as (CI & MI & PI & PMI & FI).
+    destruct (dim_okb (j - h1) W) eqn:KJ.
+    2:{ unfold dim_okb in KJ. rewrite (dim_bad (j - h1) W sj sb oj ob) by (auto; lia).
+        now rewrite andb_false_r. }
+    destruct (dim_ok_compat (j - h1) W sj sb oj ob ltac:(lia) KJ E2 E4) as (CJ & MJ & PJ & PMJ & FJ).
+    rewrite CI, CJ, MI, MJ. cbn [andb negb]. f_equal.
+    apply tab_ext. intros y x Hy Hx.
     rewrite (get2_tab false h w) by assumption. rewrite (get2_tab false h w f0) by assumption.
     rewrite (get2_tab false (h + sh) (w + sw)) by lia.
     unfold bmf, nb_ok, zlen.
     set (y' := y + (i - h0)). set (x' := x + (j - h1)).
     replace (i + y - h0) with y' by (unfold y'; lia). replace (j + x - h1) with x' by (unfold x'; lia).
     destruct ((0 <=? y') && (y' <? H) && (0 <=? x') && (x' <? W)) eqn:IN.
-    - replace ((h0 <=? i + y) && (i + y <? h0 + H) && (h1 <=? j + x) && (j + x <? h1 + W)) with true by lia.
-      replace ((Z.max 0 (- (i - h0)) <=? y) && (y <? Z.min H (H - (i - h0)))
-               && (Z.max 0 (- (j - h1)) <=? x) && (x <? Z.min W (W - (j - h1)))) with true by lia.
-      rewrite get2_tab by lia.
-      replace (Z.max 0 (- (i - h0)) + (y - Z.max 0 (- (i - h0)))) with y by lia.
-      replace (Z.max 0 (- (j - h1)) + (x - Z.max 0 (- (j - h1)))) with x by lia.
-      replace (Z.max 0 (i - h0) + (y - Z.max 0 (- (i - h0)))) with y' by lia.
-      replace (Z.max 0 (j - h1) + (x - Z.max 0 (- (j - h1)))) with x' by lia.
+    - (* the neighbour is inside the image: both axes are in the normal regime *)
+      destruct (dim_normal (i - h0) H si sa oi oa ltac:(lia) ltac:(lia) E1 E3) as (-> & Ea & -> & ->).
+      destruct (dim_normal (j - h1) W sj sb oj ob ltac:(lia) ltac:(lia) E2 E4) as (-> & Eb & -> & ->).
+      replace ((h0 <=? i + y) && (i + y <? h0 + H) && (h1 <=? j + x) && (j + x <? h1 + W)) with true by lia.
+      replace ((Z.max 0 (- (i - h0)) <=? y) && (y <? Z.max 0 (- (i - h0)) + sa)
+               && (Z.max 0 (- (j - h1)) <=? x) && (x <? Z.max 0 (- (j - h1)) + sb)) with true by lia.
+      assert (BA : bdim sa sa = sa) by (unfold bdim; destruct (sa =? 1); reflexivity).
+      assert (BB : bdim sb sb = sb) by (unfold bdim; destruct (sb =? 1); reflexivity).
+      rewrite BA, BB. rewrite get2_tab by lia.
+      replace (Z.max 0 (- (i - h0)) + bidx sa (y - Z.max 0 (- (i - h0)))) with y
+        by (unfold bidx; destruct (sa =? 1) eqn:?; lia).
+      replace (Z.max 0 (- (j - h1)) + bidx sb (x - Z.max 0 (- (j - h1)))) with x
+        by (unfold bidx; destruct (sb =? 1) eqn:?; lia).
+      replace (Z.max 0 (i - h0) + bidx sa (y - Z.max 0 (- (i - h0)))) with y'
+        by (unfold bidx, y'; destruct (sa =? 1) eqn:?; lia).
+      replace (Z.max 0 (j - h1) + bidx sb (x - Z.max 0 (- (j - h1)))) with x'
+        by (unfold bidx, x'; destruct (sb =? 1) eqn:?; lia).
       cbn [andb].
       destruct (get2 0 image y x <? get2 0 image y' x') eqn:LT.
       + replace (get2 0 image y' x' <=? get2 0 image y x) with false by lia.
         now rewrite !andb_false_r.
       + replace (get2 0 image y' x' <=? get2 0 image y x) with true by lia.
         now rewrite andb_true_r.
-    - replace ((h0 <=? i + y) && (i + y <? h0 + H) && (h1 <=? j + x) && (j + x <? h1 + W)) with false by lia.
-      replace ((Z.max 0 (- (i - h0)) <=? y) && (y <? Z.min H (H - (i - h0)))
-               && (Z.max 0 (- (j - h1)) <=? x) && (x <? Z.min W (W - (j - h1)))) with false by lia.
-      cbn [andb]. reflexivity.
+    - (* the neighbour is outside: big_mask already cleared the pixel; min_mask assigns nothing *)
+      replace ((h0 <=? i + y) && (i + y <? h0 + H) && (h1 <=? j + x) && (j + x <? h1 + W)) with false by lia.
+      cbn [andb]. rewrite !andb_false_r.
+      match goal with |- (if ?c then false else false) = false => destruct c; reflexivity end.
   Qed.
 
   Lemma rm_fold_spec : forall (l : list (Z * Z)) (f0 : Z -> Z -> bool),
     (forall ij, In ij l -> 0 <= fst ij < Z.of_nat sh /\ 0 <= snd ij < Z.of_nat sw) ->
-    fold_left (rm_step image big_mask st h w h0 h1) l (tab h w f0)
-    = tab h w (fun y x => f0 y x && forallb (fun ij => cond (fst ij) (snd ij) y x) l).
+    rm_fold (rm_step image big_mask st h w h0 h1) l (tab h w f0)
+    = if forallb cell_ok l
+      then Some (tab h w (fun y x => f0 y x && forallb (fun ij => cond (fst ij) (snd ij) y x) l))
+      else None.
   Proof.
-    induction l as [|[i j] l IH]; intros f0 Hin; cbn [fold_left forallb].
-    - apply tab_ext. intros. now rewrite andb_true_r.
+    induction l as [|[i j] l IH]; intros f0 Hin; cbn [rm_fold forallb].
+    - f_equal. apply tab_ext. intros. now rewrite andb_true_r.
     - destruct (Hin (i, j) (or_introl eq_refl)) as [Hi Hj]. cbn [fst snd] in Hi, Hj.
-      rewrite rm_step_spec by assumption. rewrite IH by (intros; apply Hin; now right).
-      apply tab_ext. intros. cbn [fst snd]. now rewrite andb_assoc.
+      rewrite rm_step_spec by assumption. destruct (cell_ok (i, j)); [|reflexivity]. cbn [andb].
+      rewrite IH by (intros; apply Hin; now right). destruct (forallb cell_ok l); [|reflexivity].
+      f_equal. apply tab_ext. intros. cbn [fst snd]. now rewrite andb_assoc.
   Qed.
 End Reg.
 
-Theorem regional_maximum_ties_eq image mask (st : list (list bool)) :
-  let h := length image in
-  let w := length (hd [] image) in
-  zlen st / 2 <= Z.of_nat h -> zlen (hd [] st) / 2 <= Z.of_nat w ->
-  regional_maximum_ties image mask st = Some (tab h w (reg_max_b image mask st)).
+(* no set, non-centre cell of the structure lies at an offset off with n < |off| < 2n - 1 *)
+Definition slices_okb (image : list (list Z)) (st : list (list bool)) : bool :=
+  let h0 := zlen st / 2 in
+  let h1 := zlen (hd [] st) / 2 in
+  forallb (fun i => forallb (fun j =>
+      implb (negb ((i =? h0) && (j =? h1)) && get2 false st i j)
+            (dim_okb (i - h0) (zlen image) && dim_okb (j - h1) (zlen (hd [] image))))
+    (zrange (length (hd [] st)))) (zrange (length st)).
+
+(* complete characterisation: the model fails exactly when the slices are incompatible, and
+   otherwise returns the executable spec *)
+Theorem regional_maximum_ties_char image mask (st : list (list bool)) :
+  regional_maximum_ties image mask st
+  = if slices_okb image st
+    then Some (tab (length image) (length (hd [] image)) (reg_max_b image mask st)) else None.
 Proof.
-  intros h w A B. unfold regional_maximum_ties, shape2, zlen in *. cbv beta iota zeta.
-  set (h0 := Z.of_nat (length st) / 2) in *. set (h1 := Z.of_nat (length (hd [] st)) / 2) in *.
-  assert (P0 : 0 <= h0 <= Z.of_nat (length st)).
-  { unfold h0. split; [apply Z.div_pos; lia|]. apply Z.div_le_upper_bound; lia. }
-  assert (P1 : 0 <= h1 <= Z.of_nat (length (hd [] st))).
-  { unfold h1. split; [apply Z.div_pos; lia|]. apply Z.div_le_upper_bound; lia. }
-  replace ((Z.of_nat (length image) <? h0) || (Z.of_nat (length (hd [] image)) <? h1)) with false by (subst h w; lia).
-  f_equal.
+  unfold regional_maximum_ties, shape2, slices_okb, zlen. cbv beta iota zeta.
+  set (h := length image). set (w := length (hd [] image)).
+  set (h0 := Z.of_nat (length st) / 2). set (h1 := Z.of_nat (length (hd [] st)) / 2).
   assert (R1 : match mask with
                | None => tab h w (fun _ _ => true)
                | Some m => tab h w (fun y x => if negb (get2 false m y x) then false
@@ -109,13 +186,71 @@ Proof.
                end = tab h w (mask_at mask)).
   { destruct mask as [m|]; [|reflexivity]. apply tab_ext. intros y x Hy Hx. cbn [mask_at].
     rewrite get2_tab by assumption. now destruct (get2 false m y x). }
-  fold h w. rewrite R1.
+  rewrite R1.
   rewrite (rm_fold_spec image mask st h0 h1) by
-    (try (subst h w; lia); intros ij Hij; apply in_flat_map in Hij; destruct Hij as (i & Hi & Hij);
+    (intros ij Hij; apply in_flat_map in Hij; destruct Hij as (i & Hi & Hij);
      apply in_map_iff in Hij; destruct Hij as (j & <- & Hj); apply In_zrange in Hi, Hj; cbn [fst snd]; lia).
-  apply tab_ext. intros y x _ _. unfold reg_max_b. f_equal.
+  rewrite forallb_flat_map.
+  replace (forallb (fun a => forallb (cell_ok image st h0 h1) (map (fun j => (a, j)) (zrange (length (hd [] st)))))
+                   (zrange (length st)))
+    with (forallb (fun i => forallb (fun j =>
+            implb (negb ((i =? h0) && (j =? h1)) && get2 false st i j)
+                  (dim_okb (i - h0) (Z.of_nat h) && dim_okb (j - h1) (Z.of_nat w)))
+            (zrange (length (hd [] st)))) (zrange (length st))).
+  2:{ apply forallb_ext'. intros i. rewrite forallb_map. reflexivity. }
+  match goal with |- (if ?c then _ else _) = _ => destruct c; [|reflexivity] end.
+  f_equal. apply tab_ext. intros y x _ _. unfold reg_max_b. f_equal.
   rewrite forallb_flat_map. apply forallb_ext'. intros i. rewrite forallb_map. apply forallb_ext'. intros j.
   reflexivity.
+Qed.
+
+Lemma dim_okb_fits off n : Z.abs off <= n -> dim_okb off n = true.
+Proof. unfold dim_okb. lia. Qed.
+
+(* in particular: every structure whose half shape fits into the image (3x3 on any non-empty image) *)
+Lemma slices_okb_fits image (st : list (list bool)) :
+  zlen st / 2 <= zlen image -> zlen (hd [] st) / 2 <= zlen (hd [] image) -> slices_okb image st = true.
+Proof.
+  unfold slices_okb, zlen. cbv zeta. intros A B. apply forallb_forall. intros i Hi.
+  apply forallb_forall. intros j Hj. apply In_zrange in Hi, Hj.
+  match goal with |- implb ?c _ = true => destruct c; [cbn [implb]|reflexivity] end.
+  rewrite !dim_okb_fits; [reflexivity| |].
+  - assert (0 <= Z.of_nat (length (hd [] st)) / 2 <= Z.of_nat (length (hd [] st))).
+    { split; [apply Z.div_pos; lia|]. apply Z.div_le_upper_bound; lia. }
+    assert (Z.of_nat (length (hd [] st)) <= 2 * (Z.of_nat (length (hd [] st)) / 2) + 1).
+    { pose proof (Z.div_mod (Z.of_nat (length (hd [] st))) 2 ltac:(lia)).
+      pose proof (Z.mod_pos_bound (Z.of_nat (length (hd [] st))) 2 ltac:(lia)). lia. }
+    lia.
+  - assert (0 <= Z.of_nat (length st) / 2 <= Z.of_nat (length st)).
+    { split; [apply Z.div_pos; lia|]. apply Z.div_le_upper_bound; lia. }
+    assert (Z.of_nat (length st) <= 2 * (Z.of_nat (length st) / 2) + 1).
+    { pose proof (Z.div_mod (Z.of_nat (length st)) 2 ltac:(lia)).
+      pose proof (Z.mod_pos_bound (Z.of_nat (length st)) 2 ltac:(lia)). lia. }
+    lia.
+Qed.
+
+Theorem regional_maximum_ties_eq image mask (st : list (list bool)) :
+  slices_okb image st = true ->
+  regional_maximum_ties image mask st
+  = Some (tab (length image) (length (hd [] image)) (reg_max_b image mask st)).
+Proof. intros K. now rewrite regional_maximum_ties_char, K. Qed.
+
+(* whenever the model returns, it returns the spec *)
+Lemma regional_maximum_ties_Some image mask st result :
+  regional_maximum_ties image mask st = Some result ->
+  result = tab (length image) (length (hd [] image)) (reg_max_b image mask st).
+Proof. rewrite regional_maximum_ties_char. destruct (slices_okb image st); congruence. Qed.
+
+(* the slice arithmetic is NOT safe for every structure: a set cell 4 rows above the centre on
+   a 3-row image makes image[0:-1] (2 rows) meet image[4:3] (0 rows): NumPy raises ValueError *)
+Theorem regional_maximum_slices_refuted :
+  exists image st, regional_maximum_ties image None st = None.
+Proof.
+  exists [[0; 0; 0]; [0; 0; 0]; [0; 0; 0]].
+  exists [[false; true; false]; [false; false; false]; [false; false; false]; [false; false; false];
+          [false; true; false]; [false; false; false]; [false; false; false]; [false; false; false];
+          [false; false; false]].
+  vm_compute. reflexivity.
 Qed.
 
 Lemma reg_max_b_spec image mask st y x :
@@ -135,16 +270,17 @@ Proof.
     unfold nb_ok, zlen. rewrite M. cbn [andb]. rewrite !andb_true_iff. lia.
 Qed.
 
-(* the statement of the property for the ties-allowed form *)
+(* the statement of the property for the ties-allowed form: every image shape, every mask,
+   every structure shape and content for which NumPy's shifted slices are compatible *)
 Theorem regional_maximum_ties_spec image mask (st : list (list bool)) :
   let h := length image in
   let w := length (hd [] image) in
-  zlen st / 2 <= Z.of_nat h -> zlen (hd [] st) / 2 <= Z.of_nat w ->
+  slices_okb image st = true ->
   exists out, regional_maximum_ties image mask st = Some out /\ wf h w out /\
     forall y x, 0 <= y < Z.of_nat h -> 0 <= x < Z.of_nat w ->
       (get2 false out y x = true <-> reg_max_at image mask st y x).
 Proof.
-  intros h w A B. eexists. split; [now apply regional_maximum_ties_eq|].
+  intros h w K. eexists. split; [now apply regional_maximum_ties_eq|].
   split; [apply tab_wf|]. intros y x Hy Hx. rewrite get2_tab by assumption. apply reg_max_b_spec.
 Qed.
 
